@@ -2,7 +2,7 @@
 # usage: tools/wave.sh <prop> [extra checks...]  — takes /tmp/wt-<prop>/_seeded/{1,2}, confirms them
 # (tools/seeded_verify.sh) under the next free ids <prop>-<letter>, and runs <prop> (+ extra) against each.
 p=$1; shift
-letters=(a b c d e f g h i j k l m n)
+letters=(a b c d e f g h i j k l m n o p q r s t u v w x y z)
 for n in 1 2; do
   [ -f /tmp/wt-$p/_seeded/$n/patch.diff ] || { echo "$p/$n: no patch"; continue; }
   id=""
